@@ -70,13 +70,27 @@ func VerifH_C17_Expiry() {
 		i0.SetMaximumBodySize(8192)
 		rcv.sc.instances[ch] = append([]*channelInstance{i0}, rcv.sc.instances[ch]...)
 	}
-	rcv.sc.instances[ch] = append(rcv.sc.instances[ch], i2)
-	rcv.sc.activeInstance = i2
+	// a late renewal: the old token is still the active one when it expires, the new token
+	// arrives afterwards
+	late := vfBool("lateRenewal")
+	if late {
+		rcv.sc.activeInstance = i1
+	} else {
+		rcv.sc.instances[ch] = append(rcv.sc.instances[ch], i2)
+		rcv.sc.activeInstance = i2
+	}
 
 	m1 := rcv.sc.Receive(context.Background())
 	vfAssert(m1 != nil && m1.Err == nil && m1.RequestID == 101, "a chunk under the old token is rejected before the token expired")
 
 	rcv.sc.scheduleExpiration(i1) // timer fires, the expiry step runs
+	if late {
+		rcv.sc.instancesMu.Lock()
+		rcv.sc.instances[ch] = append(rcv.sc.instances[ch], i2)
+		rcv.sc.activeInstance = i2
+		rcv.sc.instancesMu.Unlock()
+		vfReach("late")
+	}
 
 	m2 := rcv.sc.Receive(context.Background())
 	vfAssert(m2 != nil && m2.Err != nil, "a chunk secured with an expired token is delivered")
